@@ -75,6 +75,18 @@ func genC07(g *G, n int, out io.Writer, full bool) {
 			emit("kind:"+k, si, prof)
 		}
 	}
+	// list constraints with an EMPTY list (legal YAML; nothing is allowed / nothing is required)
+	for _, k := range []string{"in", "containsAll", "containsSome"} {
+		a := atomOfKind(k, PP("p0", false))
+		a.Vals = []string{}
+		prof := ProfileSpec{Atoms: []Atom{a}, Paths: []Path{PP("p1", false)}}
+		prof.Validations = []Validation{
+			{Name: "plain", Class: NS + "T", Rule: Rule{Atom: ip(0)}},
+			{Name: "negated", Class: NS + "T", Rule: Rule{Not: &Rule{Atom: ip(0)}}},
+			{Name: "nested", Class: NS + "T", Rule: Rule{Nested: &Rule{Atom: ip(0)}, PathIx: ip(0)}},
+		}
+		emit("empty-list:"+k, 0, prof)
+	}
 	// 1..N quantified constraints in ONE validation (each takes a fresh variable)
 	widths := []int{1, 2, 5, 10, 11, 12, 13, 24, 25, 26, 27, 30, 40}
 	if full {
